@@ -98,9 +98,9 @@ def make_engine(run, budget, **kwargs):
     return eng
 
 
-def drive(run, eng, ops, unit, budget_fn, prec=None):
+def drive(run, eng, ops, unit, budget_fn, prec=None, first_index=0):
     """ops: list of [name, units, force?].  Stops at the first exception."""
-    for i, op in enumerate(ops):
+    for i, op in enumerate(ops, first_index):
         REC.op = i
         name = op[0]
         start = eng.global_time
@@ -117,6 +117,8 @@ def drive(run, eng, ops, unit, budget_fn, prec=None):
         else:
             REC.ev('OPSTART', name=name, start=start)
         set_budget(budget_fn(op))
+        REC.extra.pop('snap_cached', None)
+        REC.extra.pop('ids_cached', None)
         try:
             if name == 'run_for':
                 eng.run_for(interval, force)
